@@ -464,6 +464,23 @@ LINEAR = {
     "mirror-y": Affine.scale(1.0, -1.0),
     "transpose": Affine(0.0, 1.0, 0.0, 1.0, 0.0, 0.0),
     "rot90": Affine.rotation(90.0),
+    # COMBINED differences: each is a product of single differences whose effects cancel in the determinant
+    # or in any one-number summary of the linear part
+    "combined-mirror-both": Affine.scale(-1.0, -1.0),
+    "combined-rot180": Affine.rotation(180.0),
+    "combined-scale-2-by-half": Affine.scale(2.0, 0.5),
+    "combined-scale-half-by-2": Affine.scale(0.5, 2.0),
+    "combined-scale-4-by-quarter": Affine.scale(4.0, 0.25),
+    "combined-scale-neg2-by-neghalf": Affine.scale(-2.0, -0.5),
+    "combined-scale-1e-3-reciprocal": Affine.scale(1 + EPS3, 1 / (1 + EPS3)),
+    "combined-mirror-transpose": Affine(0.0, 1.0, 0.0, 1.0, 0.0, 0.0) * Affine.scale(-1.0, 1.0),
+    "combined-transpose-mirror-both": Affine(0.0, -1.0, 0.0, -1.0, 0.0, 0.0),
+    "combined-rot90-mirror-x": Affine.rotation(90.0) * Affine.scale(-1.0, 1.0),
+    "combined-rot90-mirror-y": Affine.rotation(90.0) * Affine.scale(1.0, -1.0),
+    "combined-rot270": Affine.rotation(270.0),
+    "combined-shears-cancel-0.5": Affine(1.0, 0.5, 0.0, 0.0, 1.0, 0.0) * Affine(1.0, 0.0, 0.0, -0.5, 1.0, 0.0),
+    "combined-shears-cancel-1e-3": Affine(1.0, EPS3, 0.0, 0.0, 1.0, 0.0) * Affine(1.0, 0.0, 0.0, EPS3, 1.0, 0.0),
+    "combined-shears-unimodular-2-1-1-1": Affine(2.0, 1.0, 0.0, 1.0, 1.0, 0.0),
 }
 RESIDUES_D = (0.0, EPS3, -EPS3, 0.25, -0.25, 0.5, -0.5)
 RESIDUES_R = (0.0, 1e-3, -1e-3, 0.25, -0.25, 0.5, -0.5)
@@ -477,6 +494,9 @@ def gen_reject():
     for base in BASE_NAMES:
         res = RESIDUES_D if is_exact(base) else RESIDUES_R
         for ma in REJ_A:
+            # origin on the opposite corner of a, same shape: for mirror-both / rot180 exactly the footprint of a
+            for name in LINEAR:
+                yield (base, ma, (ma[0] + ma[3], ma[1] + ma[2], ma[2], ma[3]), ("linear", name, 0.0, 0.0))
             for mb in REJ_B:
                 for name in LINEAR:
                     yield (base, ma, mb, ("linear", name, 0.0, 0.0))
@@ -535,6 +555,80 @@ def run_reject(case):
     for k, rects in (("a&b", [ra, rb]), ("b&a", [rb, ra])):
         if got[k][0] == "ok":
             judge_inter(r, base, got[k], rects, "tiny-residue", f"{k} {what}", TOL_PX, TOL_LIN)
+    return r
+
+
+# ---------------------------------------------------------------------------------------------
+# slice "reject-nary": an incompatible operand must be rejected wherever it stands in the list, also when the
+# compatible operands already have no pixel in common (gap) or one of them is empty
+# ---------------------------------------------------------------------------------------------
+NARY_A = (0, 0, 2, 3)
+NARY_B = {
+    "gap-both-axes": (5, -6, 2, 2),
+    "gap-x-only": (6, 0, 2, 2),
+    "gap-y-only": (1, 5, 3, 2),
+    "empty-rows": (1, 1, 0, 2),
+    "empty-cols-far": (7, 7, 3, 0),
+    "overlapping": (1, 1, 2, 2),
+}
+NARY_BAD = ("subpixel-x0.25", "subpixel-y0.5", "subpixel-1e-3", "pixel-x2", "scale-1e-3", "rot1deg", "mirror-both", "other-crs")
+NARY_BAD_AT = ((1, 1, 2, 2), (-4, 9, 1, 3))
+OTHER_CRS = "EPSG:3577"
+
+
+def _bad_geobox(base, bad, m):
+    tx, ty, ny, nx = m
+    A0 = BASES[base][0]
+    crs = crs_of(base)
+    if bad == "subpixel-x0.25":
+        A = A0 * Affine.translation(tx + 0.25, ty)
+    elif bad == "subpixel-y0.5":
+        A = A0 * Affine.translation(tx, ty + 0.5)
+    elif bad == "subpixel-1e-3":
+        A = A0 * Affine.translation(tx + EPS3, ty - EPS3)
+    elif bad == "pixel-x2":
+        A = A0 * Affine.translation(tx, ty) * Affine.scale(2.0, 2.0)
+    elif bad == "scale-1e-3":
+        A = A0 * Affine.translation(tx, ty) * Affine.scale(1 + EPS3, 1 + EPS3)
+    elif bad == "rot1deg":
+        A = A0 * Affine.translation(tx, ty) * Affine.rotation(1.0)
+    elif bad == "mirror-both":
+        A = A0 * Affine.translation(tx + nx, ty + ny) * Affine.scale(-1.0, -1.0)
+    elif bad == "other-crs":
+        A = A0 * Affine.translation(tx, ty)
+        if OTHER_CRS not in _CRS:
+            _CRS[OTHER_CRS] = CRS(OTHER_CRS)
+        crs = _CRS[OTHER_CRS]
+    else:
+        raise ValueError(bad)
+    return GeoBox((ny, nx), A, crs)
+
+
+def gen_reject_nary():
+    for base in BASE_NAMES:
+        for bname in NARY_B:
+            for bad in NARY_BAD:
+                for at in range(len(NARY_BAD_AT)):
+                    for order in itertools.permutations("abX"):
+                        yield (base, bname, bad, at, "".join(order))
+
+
+def run_reject_nary(case):
+    base, bname, bad, at, order = case
+    objs = {"a": gb(base, NARY_A), "b": gb(base, NARY_B[bname]), "X": _bad_geobox(base, bad, NARY_BAD_AT[at])}
+    lst = [objs[c] for c in order]
+    got = {
+        "union": call(geobox_union_conservative, lst),
+        "intersection": call(geobox_intersection_conservative, lst),
+    }
+    r = R(outcome=f"{base}:{bname}:X-at-{order.index('X')}:"
+                  + ("+".join(sorted({type(v[1]).__name__ for v in got.values() if v[0] == 'raised'})) or "accepted"))
+    what = (f"base={base} list order {order} with a=shift(0,0) shape(2,3), b={bname} {NARY_B[bname]}, "
+            f"X={bad} at {NARY_BAD_AT[at]} (not on the common grid)")
+    for op, v in got.items():
+        if v[0] != "raised":
+            r.fail(f"reject:nary-accepted-incompatible-operand:{op}:{bad}:order-{order}:{bname}:{base}",
+                   f"{op} returned {v[1]!r} although operand X is not related to the others by a whole-pixel shift; {what}")
     return r
 
 
@@ -1022,6 +1116,9 @@ def slices(tier):
         e1.Slice("reject", gen_reject, run_reject,
                  "grids differing in pixel size / orientation / shear / sub-pixel residue must raise in every operation; "
                  "residues ~1e-9 px (below the documented tolerance) may be accepted but then must give the common-grid answer"),
+        e1.Slice("reject-nary", gen_reject_nary, run_reject_nary,
+                 "geobox_union/intersection_conservative on every ordering of [a, b, X]: a, b on the common grid (disjoint with a "
+                 "gap, b empty, or overlapping), X with sub-pixel offset / other pixel size / rotated / mirrored / other CRS"),
         e1.Slice("snap", gen_snap, run_snap, "snap_to over whole-pixel shift + sub-pixel perturbation on both axes"),
         e1.Slice("enclosing", gen_enclosing(tier), run_enclosing,
                  "same-CRS regions (BoundingBox and polygon) with every side at a perturbed pixel line"),
@@ -1049,6 +1146,7 @@ def main(ctx):
         "triple_members": len(triple_members(ctx.tier)),
         "perturbations": {"D": list(PERT_D), "R": list(PERT_R)},
         "incompatible": list(LINEAR) + ["residue in {1e-3 (2^-10 on D), 1/4, 1/2}^2"],
+        "incompatible_nary": {"b": list(NARY_B), "bad": list(NARY_BAD), "orders": "all 6"},
         "bbox_alphabet": list(bbox_alphabet(ctx.tier)),
         "tolerance": "D: exact; R: 1e-6 px offsets, 1e-9 linear part",
     }
